@@ -172,6 +172,8 @@ func checkC08(c *Ctx) {
 	c.rule("PASS-overlay", "the overlay the merged iterator reads is recorded with every change of the working root, cancelled consistently, and kept until the commit succeeded", 6)
 	checkOverlayMaintenance(c, "PASS-overlay")
 	checkEmptyValueLegal(c)
+	c.rule("ERR-invalidates", "an iterator that stored an error re-decides its validity before returning (invalid for good, accessors never run on missing state)", 3)
+	ea.runErrorInvalidates("ERR-invalidates", nil)
 	checkTraversalTable(c)
 	checkFastIteratorDomain(c)
 }
